@@ -1,6 +1,315 @@
-import VncModel.Life.Model
-/-! placeholder while the proofs are being written -/
+import VncModel.Life.Progress
+/-!
+# C12 — Every connection is torn down exactly once and releases all it acquired
+
+Property theorems only.  Model: `VncModel/Life/Model.lean` (application-driven event loop:
+`rfbNewTCPOrUDPClient` with every exit, `rfbCloseClient`, `rfbClientConnectionGone`, message
+processing with I/O failures at any point, `rfbProcessEvents` (rfbCheckFds + reaping loop), the
+non-shared policy block, application callbacks that close clients, on-hold start/refuse,
+`rfbShutdownServer`, `rfbScreenCleanup`).  Helper lemmas: `Life/{Inv,Teardown,Steps,Scale,Loop,
+Progress}.lean`.  Tie to the code: `harness/c12.c` ⇄ `Driver/C12.lean` (exact comparison of all
+events and records after every operation, with a fault injected at every server I/O call in turn).
+
+Quantifiers: every finite history `ops : List Op` — any number of connections, every hook decision,
+every WebSocket/plain start, every early exit, every message, every I/O failure annotation
+(`Fail.rd` / `Fail.wr` on any connection at any message: EOF, reset and timeout all reach the code
+as "the read/write failed"), every set of acquired resources (`Res` is arbitrary), callbacks closing
+any client, shutdown and cleanup at any point — and every `Variant` of the code (which of the six
+known defects are fixed).
+
+What the theorems say
+* `exactly_once`            (code with all fixes) every connection that is no longer reachable
+                            through the client list has: socket closed exactly once, gone callback
+                            run exactly once if the application ever saw it (never otherwise), record
+                            freed, no compression state / buffer / wsctx / wspath / file-transfer
+                            descriptor / extension node / screen reference left; nothing is lost.
+* `at_most_once`            (ANY variant, so also the code as found) no double close, no double
+                            gone callback, a gone client is closed, unlisted and holds nothing;
+                            a listed client's record says "open" iff close() was never called.
+* `each_fix_suffices`       (any variant) each kind of loss is impossible as soon as the one fix
+                            that addresses it is present — the precise `_partial` statement for
+                            partially fixed code.
+* `refcounts_exact`         (any variant) every screen's reference count equals the number of
+                            records referencing it; with the fixes: the number of listed clients.
+* `reaping_complete`, `shutdown_leaves_nobody`, `cleanup_leaves_nobody`   progress.
+* `isolation_*`             a step of connection `i` (teardown, message, failed message, accept)
+                            leaves every other record untouched, except the two intended effects
+                            (non-shared replacement, an application gone-hook that closes a client),
+                            which close the other record exactly once and change nothing else.
+* `defect_*`                counter-examples: for `Variant.current` (the code as found) `exactly_once`
+                            is FALSE; six concrete histories, each replayed on the real code by the
+                            check (corpus/C12/*.ops).
+
+Partial (`_partial`): the full-strength statement for the code as found,
+   theorem exactly_once_current (ops) : … same as `exactly_once` with `Variant.current` …
+is false (see `defect_*`); what holds for it is `at_most_once` + `each_fix_suffices` +
+`refcounts_exact`, stated below as `exactly_once_partial`.
+Not covered by the model: the byte streams (the "stream of any other connection" half of the
+isolation claim is tested by the witness comparison of the fault enumeration), threads (C13), TLS.
+-/
 namespace VncModel.Props.C12
 open VncModel.Life
-theorem placeholder : (run Variant.fixed World.init []).list = [] := rfl
+
+/-- the world after a history, starting with no connection -/
+def after (v : Variant) (ops : List Op) : World := run v World.init ops
+
+theorem inv_after (v : Variant) (ops : List Op) : Inv v (after v ops) := inv_run (inv_init v) ops
+
+/-- **exactly once, everything released** (code with all fixes) -/
+theorem exactly_once (ops : List Op) (i : Nat) (c : Conn)
+    (hc : (after Variant.fixed ops).conns[i]? = some c) (hended : i ∉ (after Variant.fixed ops).list) :
+    c.closeCalls = 1 ∧ c.goneCalls = (if c.hooked then 1 else 0) ∧ c.sockOpen = false ∧
+    c.freed = true ∧ c.refHeld = false ∧ c.res = {} ∧ c.wsctx = false ∧ c.wspath = false ∧
+    c.ftFd = false ∧ c.exts = 0 := by
+  have hd := (inv_after Variant.fixed ops).dead i c hc hended
+  rcases hd.2.2 with ht | hn
+  · exact ⟨hd.1, ht.1, hd.2.1, ht.2.1, ht.2.2.1, ht.2.2.2.1, ht.2.2.2.2.1, ht.2.2.2.2.2.1,
+      ht.2.2.2.2.2.2.1, ht.2.2.2.2.2.2.2⟩
+  · exact absurd hn.1 (by decide)
+
+/-- … and nothing at all is lost for good (no record, wspath, extension node or descriptor) -/
+theorem nothing_lost (ops : List Op) :
+    let w := after Variant.fixed ops
+    w.nbLost = 0 ∧ w.recLost = 0 ∧ w.shutLeft = 0 ∧ w.wsLostGone = 0 ∧ w.wsLostHs = 0 ∧
+    w.stray = 0 ∧ w.extLost = 0 := by
+  obtain ⟨k1, k2, k3, k4, k5, k6⟩ := (inv_after Variant.fixed ops).counters
+  exact ⟨k1 rfl, (k2 rfl).1, (k2 rfl).2, k3 rfl, k4 rfl, k5 rfl, k6 rfl⟩
+
+/-- **at most once** — for every variant of the code, in particular the code as found -/
+theorem at_most_once (v : Variant) (ops : List Op) (i : Nat) (c : Conn)
+    (hc : (after v ops).conns[i]? = some c) :
+    c.goneCalls ≤ 1 ∧ c.closeCalls ≤ 1 ∧
+    (c.goneCalls = 1 → c.closeCalls = 1 ∧ i ∉ (after v ops).list ∧ c.sockOpen = false ∧
+       c.res = {} ∧ c.refHeld = false ∧ c.wsctx = false ∧ c.wspath = false ∧ c.ftFd = false ∧ c.exts = 0) ∧
+    (i ∈ (after v ops).list → c.goneCalls = 0 ∧ (c.sockOpen = true ↔ c.closeCalls = 0)) ∧
+    (i ∉ (after v ops).list → c.sockOpen = false ∧ c.closeCalls = 1) := by
+  have hinv := inv_after v ops
+  by_cases hi : i ∈ (after v ops).list
+  · have hl := hinv.live i c hc hi
+    have hcl : c.closeCalls ≤ 1 ∧ (c.sockOpen = true ↔ c.closeCalls = 0) := by
+      cases hs : c.sockOpen
+      · have := (hl.2.2.2.2 hs).1; simp [this]
+      · have := hl.2.2.2.1 hs; simp [this]
+    refine ⟨by rw [hl.1]; omega, hcl.1, ?_, ?_, ?_⟩
+    · intro hg; rw [hl.1] at hg; cases hg
+    · intro _; exact ⟨hl.1, hcl.2⟩
+    · intro hn; exact absurd hi hn
+  · have hd := hinv.dead i c hc hi
+    have hg : c.goneCalls ≤ 1 := by
+      rcases hd.2.2 with ht | hn
+      · rw [ht.1]; split <;> omega
+      · rw [hn.2.2.2.1]; omega
+    refine ⟨hg, by rw [hd.1]; omega, ?_, ?_, ?_⟩
+    · intro hone
+      rcases hd.2.2 with ht | hn
+      · exact ⟨hd.1, hi, hd.2.1, ht.2.2.2.1, ht.2.2.1, ht.2.2.2.2.1, ht.2.2.2.2.2.1,
+          ht.2.2.2.2.2.2.1, ht.2.2.2.2.2.2.2⟩
+      · rw [hn.2.2.2.1] at hone; cases hone
+    · intro h; exact absurd h hi
+    · intro _; exact ⟨hd.2.1, hd.1⟩
+
+/-- **each loss is excluded by the one fix that addresses it** (any combination of fixes) -/
+theorem each_fix_suffices (v : Variant) (ops : List Op) :
+    let w := after v ops
+    (v.nbFree = true → w.nbLost = 0 ∧
+        ∀ i c, w.conns[i]? = some c → i ∉ w.list → c.freed = true ∧ c.refHeld = false) ∧
+    (v.closedToo = true → w.recLost = 0 ∧ w.shutLeft = 0) ∧
+    (v.goneWspath = true → w.wsLostGone = 0) ∧
+    (v.wsOnePath = true → w.wsLostHs = 0) ∧
+    (v.ftClose = true → w.stray = 0) ∧
+    (v.extFree = true → w.extLost = 0) := by
+  have hinv := inv_after v ops
+  obtain ⟨k1, k2, k3, k4, k5, k6⟩ := hinv.counters
+  refine ⟨?_, k2, k3, k4, k5, k6⟩
+  intro hv
+  refine ⟨k1 hv, ?_⟩
+  intro i c hc hi
+  rcases (hinv.dead i c hc hi).2.2 with ht | hn
+  · exact ⟨ht.2.1, ht.2.2.1⟩
+  · rw [hv] at hn; exact absurd hn.1 (by decide)
+
+/-- what is proved about the code as found (`Variant.current`), where `exactly_once` is false -/
+theorem exactly_once_partial (ops : List Op) (i : Nat) (c : Conn)
+    (hc : (after Variant.current ops).conns[i]? = some c) :
+    c.goneCalls ≤ 1 ∧ c.closeCalls ≤ 1 ∧
+    (c.goneCalls = 1 → c.closeCalls = 1 ∧ i ∉ (after Variant.current ops).list ∧ c.res = {} ∧
+       c.refHeld = false) ∧
+    (i ∉ (after Variant.current ops).list → c.closeCalls = 1 ∧ c.sockOpen = false) := by
+  obtain ⟨h1, h2, h3, _, h5⟩ := at_most_once Variant.current ops i c hc
+  refine ⟨h1, h2, ?_, ?_⟩
+  · intro hg; obtain ⟨a, b, _, d, e, _⟩ := h3 hg; exact ⟨a, b, d, e⟩
+  · intro hn; exact ⟨(h5 hn).2, (h5 hn).1⟩
+
+/-- **scaled-screen reference counts are exact** (any variant): the count of every screen is the
+number of records that reference it … -/
+theorem refcounts_exact (v : Variant) (ops : List Op) (s : Screen)
+    (hs : s ∈ (after v ops).screens) : s.refs = owners (after v ops) (s.w, s.h) :=
+  (inv_after v ops).refs s hs
+
+/-- … and with the fixes every such record is a listed client: once a connection has ended its
+reference is gone ("reference counts restored") -/
+theorem refcounts_restored (ops : List Op) (i : Nat) (c : Conn) (d : Nat × Nat)
+    (hc : (after Variant.fixed ops).conns[i]? = some c) (ho : owns d c = true) :
+    i ∈ (after Variant.fixed ops).list := by
+  by_cases hi : i ∈ (after Variant.fixed ops).list
+  · exact hi
+  · have := (exactly_once ops i c hc hi).2.2.2.2.1
+    simp [owns, this] at ho
+
+/-- **progress 1**: one pass of the reaping loop of `rfbProcessEvents` hands every listed client
+whose socket is closed to `rfbClientConnectionGone` (any variant, any reachable world) -/
+theorem reaping_complete (v : Variant) (ops : List Op) (i : Nat)
+    (hi : i ∈ (after v ops).list) (hclosed : isOpen (after v ops) i = false) :
+    i ∉ (reap v (after v ops) (after v ops).list).list :=
+  reap_complete (inv_after v ops) _ i hi hclosed
+
+/-- **progress 2**: `rfbShutdownServer` leaves no client in the list (needs the `closedToo` fix) -/
+theorem shutdown_leaves_nobody (v : Variant) (hv : v.closedToo = true) (ops : List Op) :
+    (after v (ops ++ [.shutdown])).list = [] := by
+  simp only [after, run, List.foldl_append, List.foldl_cons, List.foldl_nil, step]
+  exact shutdown_list_nil hv (inv_after v ops)
+
+/-- **progress 3**: so does `rfbScreenCleanup` alone -/
+theorem cleanup_leaves_nobody (v : Variant) (hv : v.closedToo = true) (ops : List Op) :
+    (after v (ops ++ [.cleanup])).list = [] := by
+  simp only [after, run, List.foldl_append, List.foldl_cons, List.foldl_nil, step]
+  exact cleanup_list_nil hv (inv_after v ops)
+
+/-- hence after shutdown + cleanup every connection ever made satisfies `exactly_once` -/
+theorem all_torn_down_after_shutdown (ops : List Op) (i : Nat) (c : Conn)
+    (hc : (after Variant.fixed (ops ++ [.shutdown])).conns[i]? = some c) :
+    c.closeCalls = 1 ∧ c.goneCalls = (if c.hooked then 1 else 0) ∧ c.freed = true ∧ c.res = {} := by
+  have hnil := shutdown_leaves_nobody Variant.fixed rfl ops
+  have := exactly_once (ops ++ [.shutdown]) i c hc (by rw [hnil]; simp)
+  exact ⟨this.1, this.2.1, this.2.2.2.1, this.2.2.2.2.2.1⟩
+
+/-! ### isolation -/
+
+/-- `rfbCloseClient(i)` touches no other record -/
+theorem isolation_close (w : World) (i j : Nat) (h : i ≠ j) :
+    (closeClient w i).conns[j]? = w.conns[j]? := closeClient_isolated w i j h
+
+/-- `rfbClientConnectionGone(i)` touches no other record, unless the application's own gone hook
+closes one — then that record is closed exactly once and nothing else in it changes -/
+theorem isolation_gone (v : Variant) (w : World) (i j : Nat) (h : i ≠ j) :
+    Undisturbed w (gone v w i) j ∧
+    (∀ c, w.conns[i]? = some c → c.goneKick = none → (gone v w i).conns[j]? = w.conns[j]?) :=
+  ⟨gone_undisturbed v w i j h, fun c hc hk => gone_isolated v w i j h c hc hk⟩
+
+/-- a message of connection `i`, with any outcome of its I/O, touches no other record — except the
+intended replacement by a non-shared ClientInit, which closes the other record exactly once -/
+theorem isolation_message (v : Variant) (w : World) (i j : Nat) (x : Fail) (r : Res) (h : i ≠ j) :
+    Undisturbed w (procMsg v w i x r) j := procMsg_undisturbed v w i j x r h
+
+/-- a connection whose I/O fails takes nobody with it -/
+theorem isolation_failure (v : Variant) (w : World) (i j : Nat) (x : Fail) (r : Res) (h : i ≠ j)
+    (hx : x ≠ .none) : (procMsg v w i x r).conns[j]? = w.conns[j]? :=
+  procMsg_failed_isolated v w i j x r h hx
+
+/-- accepting a connection — or failing to, on any of the early exits — disturbs no existing one -/
+theorem isolation_accept (v : Variant) (w : World) (hk : Hook) (ws : Nat) (nb : Bool) (x : Fail)
+    (j : Nat) (hj : j < w.conns.length) : Undisturbed w (accept v w hk ws nb x) j :=
+  accept_undisturbed v w hk ws nb x j hj
+
+/-! ### the code as found does NOT satisfy `exactly_once`: six counter-examples
+(each is corpus/C12/<name>.ops and is replayed on the real code by every run of the check) -/
+
+/-- nb.ops — `rfbSetNonBlocking` fails: the record is neither listed nor freed, its screen
+reference is never dropped -/
+def nbTrace : List Op := [.conn .accept 0 true .none, .shutdown, .cleanup]
+theorem defect_nonblock_fail_leak :
+    (after Variant.current nbTrace).nbLost = 1 ∧
+    (after Variant.current nbTrace).conns.map (fun c => (c.freed, c.refHeld)) = [(false, true)] ∧
+    (after Variant.current nbTrace).screens.map (·.refs) = [1] ∧
+    (after Variant.fixed nbTrace).nbLost = 0 ∧
+    (after Variant.fixed nbTrace).screens.map (·.refs) = [0] := by decide
+
+/-- shut.ops — a client closed by the application but not yet reaped is skipped by
+`rfbShutdownServer` and by `rfbScreenCleanup`: gone callback never runs, record lost -/
+def shutTrace : List Op :=
+  [.conn .accept 0 false .none, .send 0 .ver [] [], .appClose 0, .shutdown, .cleanup]
+theorem defect_closed_unreaped_shutdown_leak :
+    (after Variant.current shutTrace).conns.map (fun c => (c.hooked, c.goneCalls, c.freed)) = [(true, 0, false)] ∧
+    (after Variant.current shutTrace).recLost = 1 ∧
+    (after Variant.fixed shutTrace).conns.map (fun c => (c.hooked, c.goneCalls, c.freed)) = [(true, 1, true)] ∧
+    (after Variant.fixed shutTrace).recLost = 0 := by decide
+
+/-- gonews.ops — `rfbScreenCleanup` without `rfbShutdownServer` on a WebSocket client: wspath lost -/
+def gonewsTrace : List Op :=
+  [.conn .accept 1 false .none, .send 0 .ver [] [], .send 0 .sec [] [], .send 0 (.init true) [] [],
+   .send 0 .req [] [], .cleanup]
+theorem defect_cleanup_wspath_leak :
+    (after Variant.current gonewsTrace).wsLostGone = 1 ∧ (after Variant.fixed gonewsTrace).wsLostGone = 0 := by
+  decide
+
+/-- wsone.ops — three "GET" lines in one WebSocket handshake: two path copies lost -/
+def wsoneTrace : List Op :=
+  [.conn .accept 3 false .none, .send 0 .ver [] [], .closePeer 0 [] [], .shutdown, .cleanup]
+theorem defect_ws_multi_get_leak :
+    (after Variant.current wsoneTrace).wsLostHs = 2 ∧ (after Variant.fixed wsoneTrace).wsLostHs = 0 := by
+  decide
+
+/-- ft.ops — a file-transfer request opens a descriptor, the peer goes away: never closed -/
+def ftTrace : List Op :=
+  [.conn .accept 0 false .none, .send 0 .ver [] [], .send 0 .sec [] [], .send 0 (.init true) [] [],
+   .send 0 .ft [] [], .closePeer 0 [] [], .shutdown, .cleanup]
+theorem defect_ft_fd_leak :
+    (after Variant.current ftTrace).stray = 1 ∧ (after Variant.fixed ftTrace).stray = 0 := by decide
+
+/-- ext.ops — a protocol extension enabled for the client: its list node is never freed -/
+def extTrace : List Op :=
+  [.ext, .conn .accept 0 false .none, .send 0 .ver [] [], .closePeer 0 [] [], .shutdown, .cleanup]
+theorem defect_extension_node_leak :
+    (after Variant.current extTrace).extLost = 1 ∧ (after Variant.fixed extTrace).extLost = 0 := by decide
+
+/-- hence the full-strength statement is false for the code as found -/
+theorem exactly_once_false_for_current :
+    ¬ (∀ (ops : List Op) (i : Nat) (c : Conn),
+        (after Variant.current ops).conns[i]? = some c → i ∉ (after Variant.current ops).list →
+        c.freed = true ∧ c.refHeld = false) := by
+  intro h
+  have := h nbTrace 0 _ (by decide : (after Variant.current nbTrace).conns[0]? =
+    some { sockOpen := false, closeCalls := 1 }) (by decide)
+  exact absurd this.1 (by decide)
+
+/-! ## Non-vacuity -/
+
+/-- a history with three connections: one served with resources on a scaled screen and then dropped
+by its peer, one refused by the application, one replacing the first as non-shared client whose
+ServerInit write fails -/
+def exOps : List Op :=
+  [.conn .accept 0 false .none, .send 0 .ver [] [], .send 0 .sec [] [], .send 0 (.init true) [] [],
+   .send 0 (.scale 2) [] [], .send 0 .req [] [(0, { z := 1, b := 2 })],
+   .conn .refuse 0 false .none,
+   .conn .accept 1 false .none, .send 2 .ver [] [], .send 2 .sec [] [],
+   .send 2 (.init false) [(2, .wr)] [],
+   .closePeer 0 [] []]
+
+/-- hypotheses of `exactly_once` are met three times over, by records with non-trivial history -/
+example : (after Variant.fixed exOps).list = [] ∧
+    (after Variant.fixed exOps).conns.map (fun c => (c.hooked, c.goneCalls, c.closeCalls, c.freed)) =
+      [(true, 1, 1, true), (true, 1, 1, true), (true, 1, 1, true)] ∧
+    (after Variant.fixed exOps).screens.map (fun s => (s.w, s.h, s.refs)) = [(64, 48, 0), (32, 24, 0)] := by
+  decide
+
+/-- … while in the middle of the same history the first client really holds resources and a
+reference on the scaled screen (so `refcounts_exact` and `at_most_once` talk about live state) -/
+example : (after Variant.fixed (exOps.take 6)).list = [0] ∧
+    (after Variant.fixed (exOps.take 6)).conns.map (fun c => (c.sockOpen, c.res.z, c.res.b, c.scr)) =
+      [(true, 1, 2, (32, 24))] ∧
+    (after Variant.fixed (exOps.take 6)).screens.map (·.refs) = [0, 1] := by decide
+
+/-- `reaping_complete`: a listed client with a closed socket exists (closed by the application) -/
+example : (after Variant.fixed [.conn .accept 0 false .none, .appClose 0]).list = [0] ∧
+    isOpen (after Variant.fixed [.conn .accept 0 false .none, .appClose 0]) 0 = false := by decide
+
+/-- `isolation_message` with a real replacement: a non-shared ClientInit of client 1 closes client 0
+exactly once and changes nothing else in its record -/
+example :
+    let w := after Variant.fixed [.conn .accept 0 false .none, .send 0 .ver [] [], .send 0 .sec [] [],
+      .send 0 (.init true) [] [], .conn .accept 0 false .none, .send 1 .ver [] [], .send 1 .sec [] []]
+    let w' := procMsg Variant.fixed (enqueue w 1 (.init false)) 1 .none {}
+    (w.conns.map (·.sockOpen), w'.conns.map (·.sockOpen), w'.conns.map (·.closeCalls)) =
+      ([true, true], [false, true], [1, 0]) := by decide
+
 end VncModel.Props.C12
